@@ -36,6 +36,9 @@ type filterCase struct {
 	// when it searches the two strands one after the other); its hits are discarded
 	PreSeed uint64 `json:"pre_seed,omitempty"`
 	PreLen  int    `json:"pre_len,omitempty"`
+	// PreSelf: the earlier use of the Filter value is a forward self comparison of the target (then
+	// PreSeed/PreLen are not used); whatever that mode sets up must not outlive the call
+	PreSelf bool `json:"pre_self,omitempty"`
 	// Comp: the complement flag passed to Filter. Only generated for ordinary (non-self) comparison,
 	// where the flag is documented to matter only together with selfAlign and must change nothing
 	// (PALS passes it for the second strand of every query).
@@ -149,7 +152,21 @@ func filterOnce(c filterCase, f *filter.Filter, t []byte, qs *linear.Seq, chunk 
 		return nil, 0, err
 	}
 	defer m.CleanUp()
-	if c.PreSeed != 0 && !c.Self {
+	if c.PreSelf && !c.Self {
+		if err := f.Filter(linear.NewSeq("t", alphabet.BytesToLetters(t), alphabet.DNA), true, false, m); err != nil {
+			return nil, 0, err
+		}
+		for {
+			var h filter.Hit
+			if err := m.Pull(&h); err != nil {
+				break
+			}
+			most++
+		}
+		if err := m.Clear(); err != nil {
+			return nil, 0, err
+		}
+	} else if c.PreSeed != 0 && !c.Self {
 		pre := expand(c.PreSeed, c.PreLen)
 		// the earlier query shares stretches with the target so that it leaves k-mer counts behind
 		// (in one case of three it shares nothing and produces few or no hits, so that a small hit
@@ -405,6 +422,9 @@ func gen(t *rapid.T) filterCase {
 		c.PreLen = rapid.IntRange(minLen, max(minLen, maxLen)).Draw(t, "pre-len")
 	}
 	c.Chunk = rapid.SampledFrom([]int{0, 0, 0, 0, 0, 1, 3, 16, 64}).Draw(t, "hit-store-chunk")
+	if !c.Self && rapid.IntRange(0, 7).Draw(t, "reuse-after-self") == 3 {
+		c.PreSelf = true
+	}
 	ns := rapid.IntRange(0, c.E).Draw(t, "nsubs")
 	seen := map[int]bool{}
 	for len(c.Subs) < ns {
@@ -444,6 +464,9 @@ func classes(c filterCase) []string {
 		if c.Q0 < c.TLen-c.T0-c.N {
 			l = append(l, "complement-flag-and-match-below-antidiagonal")
 		}
+	}
+	if c.PreSelf {
+		l = append(l, "filter-reused-after-a-self-comparison")
 	}
 	if c.PreSeed != 0 {
 		l = append(l, "filter-reused-after-another-query")
